@@ -468,6 +468,50 @@ Theorem C07_roundtrip_omen_ln_translated :
                      (Loader2Model.enc_buckets Loader2Model.enc_ints (ln_guesser n l)) g), Loader2Rt.VNone).
 Proof. exact (@Loader2RoundTrip.roundtrip_omen_ln_translated). Qed.
 
+(* the whole Omen directory: the translated load_rules, called on an empty dict over the five files the writer
+   model produces (config.txt names the encoding and the n-gram size), returns True and exactly the written
+   tables: writer model -> reader = identity on the tables *)
+Theorem C07_roundtrip_omen_directory_translated :
+  forall (fo : fops) (C S : Type) (W : Loader2Rt.world fo C S),
+  (forall s, Loader2Rt.w_pint W s = parse_int IWS DZ s) ->
+  forall (dir : pstr) (c : C) (enc ntext : pstr) (n : Z) (a : list str) (ip ep cp : list (Z * str)) (lv : list Z),
+  let pj := Loader2Rt.w_path_join W in
+  Loader2Rt.cp_read (Loader2Rt.w_cfg W) (pj [dir; Loader2Model.n_config_txt]) = Loader2Rt.XDone c ->
+  Loader2Rt.cp_get (Loader2Rt.w_cfg W) c Loader2Model.k_training_settings Loader2Model.k_encoding = Loader2Rt.XDone enc ->
+  Loader2Rt.cp_get (Loader2Rt.w_cfg W) c Loader2Model.k_training_settings Loader2Model.k_ngram = Loader2Rt.XDone ntext ->
+  parse_int IWS DZ ntext = Some n ->
+  Forall (fun ch => safe ch = true) a -> Forall level_item_ok ip -> Forall level_item_ok ep -> Forall level_item_ok cp ->
+  Forall (fun it => snd it <> []) cp -> Forall (fun z => (0 <= z <= 10)%Z) lv ->
+  Loader2Rt.w_codecs_open W (pj [dir; Loader2Model.n_alphabet_txt]) (Some enc) (Some Loader2Model.k_strict) = Loader2Rt.XDone (lines_keep LB (write_alphabet a)) ->
+  Loader2Rt.w_codecs_open W (pj [dir; Loader2Model.n_ip_level]) (Some enc) (Some Loader2Model.k_strict) = Loader2Rt.XDone (lines_keep LB (write_levels ip)) ->
+  Loader2Rt.w_codecs_open W (pj [dir; Loader2Model.n_ep_level]) (Some enc) (Some Loader2Model.k_strict) = Loader2Rt.XDone (lines_keep LB (write_levels ep)) ->
+  Loader2Rt.w_codecs_open W (pj [dir; Loader2Model.n_cp_level]) (Some enc) (Some Loader2Model.k_strict) = Loader2Rt.XDone (lines_keep LB (write_levels cp)) ->
+  Loader2Rt.w_open W (pj [dir; Loader2Model.n_ln_level]) None None = Loader2Rt.XDone (lines_text (TextFile.write_ln lv)) ->
+  exists d, cp_dict cp = Some d /\
+    Loader2_gen.py_omen_load_rules fo W (Loader2Rt.VStr dir) (Loader2Rt.VDict []) =
+    Loader2Rt.XDone (Loader2Model.enc_omen_tables
+                       {| Loader2Model.ot_encoding := enc; Loader2Model.ot_ngram := n; Loader2Model.ot_alphabet := a;
+                          Loader2Model.ot_ip := ip_buckets ip; Loader2Model.ot_ep := ep_dict ep; Loader2Model.ot_cp := d;
+                          Loader2Model.ot_ln := ln_guesser n lv |}, Loader2Rt.VBool true).
+Proof. exact (@Loader2RoundTrip.roundtrip_omen_directory_translated). Qed.
+
+(* ... and the translated OmenScorer constructor on IP / CP / LN.level of the same directory (builtin open) *)
+Theorem C07_roundtrip_omen_scorer_translated :
+  forall (fo : fops) (C S : Type) (W : Loader2Rt.world fo C S),
+  (forall s, Loader2Rt.w_pint W s = parse_int IWS DZ s) ->
+  forall (base enc : pstr) (vmax : Loader2Rt.pyval (F fo) C S) (ip cp : list (Z * str)) (lv : list Z),
+  let pj := Loader2Rt.w_path_join W in
+  Forall level_item_ok ip -> Forall level_item_ok cp -> Forall (fun z => (0 <= z <= 10)%Z) lv ->
+  Loader2Rt.w_open W (pj [base; Loader2Model.n_omen; Loader2Model.n_ip_level]) (Some enc) None = Loader2Rt.XDone (lines_text (write_levels ip)) ->
+  Loader2Rt.w_open W (pj [base; Loader2Model.n_omen; Loader2Model.n_cp_level]) (Some enc) None = Loader2Rt.XDone (lines_text (write_levels cp)) ->
+  Loader2Rt.w_open W (pj [base; Loader2Model.n_omen; Loader2Model.n_ln_level]) None None = Loader2Rt.XDone (lines_text (TextFile.write_ln lv)) ->
+  Loader2_gen.py_omen_scorer_init fo W (Loader2Rt.VObj []) (Loader2Rt.VStr base) (Loader2Rt.VStr enc) vmax =
+  Loader2Rt.XDone (Loader2Model.enc_scorer (Loader2Rt.VStr enc) vmax
+                     {| Loader2Model.st_ip := ep_dict ip; Loader2Model.st_cp := ep_dict cp; Loader2Model.st_ln := lv;
+                        Loader2Model.st_ngram := match cp with it :: _ => Z.of_nat (length (snd it)) | [] => (-1)%Z end |},
+                   Loader2Rt.VNone).
+Proof. exact (@Loader2RoundTrip.roundtrip_omen_scorer_translated). Qed.
+
 (* the texts of the OMEN writer model (what the translated save_omen_rules_to_disk of C11 puts on disk) are the
    texts of the round trips *)
 Theorem C07_source_omen_writer_text_levels : forall ls, OmenTrainer.level_text ls = write_levels (Loader2RoundTrip.zitems ls).
@@ -525,6 +569,8 @@ Theorem C07_source_scorer_load_grammar_is_model :
   Loader2Model.scorer_grammar_model fo W v (Loader2GrammarGenProofs.scorer_obj0 fo) base.
 Proof. exact (@Loader2GrammarGenProofs.scorer_load_grammar_eq). Qed.
 
+Print Assumptions C07_roundtrip_omen_directory_translated.
+Print Assumptions C07_roundtrip_omen_scorer_translated.
 Print Assumptions C07_roundtrip_omen_cp_translated.
 Print Assumptions C07_roundtrip_omen_ln_translated.
 Print Assumptions C07_source_load_from_multiple_files_is_model.
